@@ -89,7 +89,7 @@ def build_site(site):
         alns.append({"name": nm, "chrom": "chrA", "start": start, "cigar": cig, "seq": q, "rg": "rg1", "flag": flag, "qual": qual, "mate": mate})
         return nm, cig
 
-    if site[0] != "pair":
+    if site[0] not in ("pair", "rpair"):
         kind, vlen, context, seed = site
         seq = site_reference(seed, context, vlen, kind)
         v = site_variant(seq, kind, vlen, context)
@@ -186,6 +186,47 @@ def build_site(site):
                 exp[nm] = {"v": {0: a}, "cover": {0: True}, "clean": True, "style": f"pair-{variant_mates}-{q1_}-{q2_}", "shiftable": shiftable, "geom": (a,)}
         return seq, variants, alns, exp
 
+    if site[0] == "rpair":
+        # a variant (possibly inside a repeat) and a second listed indel placed around the ends of the first one's
+        # re-alignment window [v.pos - OVERHANG, fend + OVERHANG): inside it, straddling its end, outside
+        _, kind, vlen, context, ukind, ulen, off, seed = site
+        seq0 = site_reference(seed, context, vlen, kind)
+        v = site_variant(seq0, kind, vlen, context)
+        fend = v.pos + len(v.ref)
+        upos = fend + off if off > 0 else v.pos + off
+        if context != "random" and off > 0 and upos < V + 10:
+            return None  # inside the repeat the two indels are not independent (and the second one not normalised)
+        seq = synth.make_unshiftable(seq0, [(upos, ukind, ulen)])
+        if context != "random" and seq[v.pos - 2 : V + 10] != seq0[v.pos - 2 : V + 10]:
+            return None  # the adjustment touched the repeat
+        if context == "random":
+            seq = synth.make_unshiftable(seq, [(V, kind, vlen)])
+            if synth.make_unshiftable(seq, [(upos, ukind, ulen)]) != seq:
+                return None
+        v1 = site_variant(seq, kind, vlen, context)
+        v2 = synth.make_variant(seq, upos, ukind, ulen)
+        i1 = 0 if v1.pos < v2.pos else 1
+        variants = [v1, v2] if i1 == 0 else [v2, v1]
+        lo, hi = min(v1.pos, v2.pos), max(v1.pos + len(v1.ref), v2.pos + len(v2.ref))
+        for a1, a2 in itertools.product((0, 1), repeat=2):
+            al = [a1, a2] if i1 == 0 else [a2, a1]
+            for so, eo in ((30, 30), (12, 14), (2, 3)):
+                for style in ("M", "=X"):
+                    start, end = lo - so, hi + eo
+                    nm, _ = add(seq, variants, al, start, end, style)
+                    exp[nm] = {
+                        "v": {i1: a1, 1 - i1: a2},
+                        "cover": {0: True, 1: True},
+                        "clean": True,
+                        # the other variant is a difference inside (or at the edge of) the window when it is non-reference
+                        "window_other": {i1: a2 == 1, 1 - i1: a1 == 1},
+                        "style": style,
+                        "shiftable": context != "random",
+                        "shiftable_v": {i1: context != "random", 1 - i1: False},
+                        "geom": (a1, a2, off, so, eo),
+                    }
+        return seq, variants, alns, exp
+
     # two variants at distance D: the lock-step walk over CIGAR and variant list
     _, k1, k2, D, seed = site[:5]
     len1 = site[5] if len(site) > 5 else 1
@@ -227,7 +268,7 @@ def sites(tier):
     kinds = [("SNV", 1), ("MNP", 2), ("MNP", 3), ("INS", 1), ("INS", 2), ("INS", 3), ("DEL", 1), ("DEL", 2), ("DEL", 3)]
     if T:
         kinds += [("MNP", 4), ("INS", 5), ("DEL", 5), ("INS", 8), ("DEL", 8)]
-    for rep in range(3 if T else 1):
+    for rep in range(6 if T else 3):
         for kind, vlen in kinds:
             out.append((kind, vlen, "random", seed0 + rep))
             if kind in ("INS", "DEL") and vlen <= 6:  # the repeat run built by site_reference has 7 units
@@ -239,6 +280,17 @@ def sites(tier):
                 if k1 == "DEL" and D < 2:
                     continue
                 out.append(("pair", k1, k2, D, seed0 + rep))
+        # a second listed indel around the ends of the re-alignment window of a variant (also inside repeats)
+        for kind, vlen in kinds:
+            for context in ("random", "homopolymer", "dinuc"):
+                if context != "random" and (kind not in ("INS", "DEL") or vlen > 6 or (context == "dinuc" and vlen > 2)):
+                    continue
+                for ukind in ("DEL", "INS"):
+                    for ulen in (1, 2, 3, 5, 6, 8):
+                        for off in list(range(-OVERHANG - 6 - ulen, -3 - ulen)) + list(range(3, OVERHANG + 4)):
+                            if rep > 0 and not T:
+                                continue
+                            out.append(("rpair", kind, vlen, context, ukind, ulen, off, seed0 + rep))
         # a longer first indel followed closely by a second variant
         for k1, k2 in (("INS", "INS"), ("INS", "SNV"), ("INS", "DEL"), ("DEL", "INS"), ("DEL", "SNV"), ("DEL", "DEL")):
             for len1 in (1, 2, 3):
@@ -256,11 +308,17 @@ def run_site(site):
     from whatshap.variants import ReadSetReader
     from whatshap.vcf import VcfReader
 
-    seq, variants, alns, exp = build_site(site)
+    built = build_site(site)
+    if built is None:
+        return Result(n=0)
+    seq, variants, alns, exp = built
     viols = []
     n = nt = 0
     outcomes = set()
     extra = {}
+    by_name = {}
+    for a_ in alns:
+        by_name[a_["name"]] = None if a_["name"] in by_name else a_  # mates: not modelled
     with synth.Scratch("c06") as sc:
         fasta = synth.write_fasta(os.path.join(sc.path, "ref.fa"), [("chrA", seq)])
         vcf = synth.VcfText(["S1"], contigs=[("chrA", len(seq))])
@@ -292,7 +350,12 @@ def run_site(site):
                 for vi, a in e["v"].items():
                     kind = variants[vi].kind
                     if vi in g and g[vi] != a:
-                        viols.append(_v("wrong-allele", mode, site, nm, e, f"variant {vi} ({variants[vi]}): recorded allele {g[vi]}, the haplotype carries {a}"))
+                        why = edit_distance_limit(seq, variants[vi], a, by_name.get(nm)) if mode == "ref" else None
+                        if why:
+                            extra["edit_distance_limit"] = extra.get("edit_distance_limit", 0) + 1
+                            viols.append(_v("wrong-allele", mode, site, nm, e, f"variant {vi} ({variants[vi]}): recorded allele {g[vi]}, the haplotype carries {a}; {why}", sub=":edit-distance-limit"))
+                        else:
+                            viols.append(_v("wrong-allele", mode, site, nm, e, f"variant {vi} ({variants[vi]}): recorded allele {g[vi]}, the haplotype carries {a}"))
                         continue
                     if not e["cover"].get(vi):
                         outcomes.add((mode, "partial", vi in g))
@@ -305,7 +368,7 @@ def run_site(site):
                         plain = e["style"] in ("M", "=X")
                         if kind == "SNV":
                             must = e["clean"] or True
-                        elif kind in ("INS", "DEL") and not e["shiftable"]:
+                        elif kind in ("INS", "DEL") and not e.get("shiftable_v", {}).get(vi, e["shiftable"]):
                             must = True
                         # two variants whose normalised positions coincide are dropped by design
                         npos = [x.pos + (1 if x.kind in ("INS", "DEL") else 0) for x in variants]
@@ -320,8 +383,60 @@ def run_site(site):
     return Result(n=n, nontrivial=nt, violations=viols[:12], outcomes=outcomes, extra=extra)
 
 
-def _v(clause, mode, site, nm, e, detail):
-    sub = ""
+def _lev(a, b):
+    d = list(range(len(b) + 1))
+    for i, ca in enumerate(a, 1):
+        p, d[0] = d[:], i
+        for j, cb in enumerate(b, 1):
+            d[j] = min(p[j] + 1, d[j - 1] + 1, p[j - 1] + (ca != cb))
+    return d[-1]
+
+
+def edit_distance_limit(seq, v, carried, aln):
+    """Is the wrong call the unavoidable outcome of the documented re-alignment rule?  The rule compares the read
+    bases aligned to the reference window [v.pos - OVERHANG, v.pos + len(REF) + OVERHANG) (cut at the read's ends;
+    insertions at the window's edge excluded) with the window carrying REF and with the window carrying ALT by
+    unit-cost edit distance; padded alleles know nothing of a neighbouring listed variant.  Returns an explanation
+    iff, on the exactly extracted window, the other allele is strictly closer; None otherwise (and for reads with
+    reference skips or mates, which are not modelled)."""
+    if aln is None or any(op == 3 for op, _ in aln["cigar"]):
+        return None
+    lo, hi = v.pos - OVERHANG, v.pos + len(v.ref) + OVERHANG
+    pos, qi, out = aln["start"], 0, []
+    first = last = None
+    for op, ln in aln["cigar"]:
+        if op in (0, 7, 8):
+            for _ in range(ln):
+                if lo <= pos < hi:
+                    out.append(aln["seq"][qi])
+                    first = pos if first is None else first
+                    last = pos
+                pos += 1
+                qi += 1
+        elif op == 2:
+            for _ in range(ln):
+                if lo <= pos < hi:
+                    first = pos if first is None else first
+                    last = pos
+                pos += 1
+        elif op == 1:
+            if lo < pos < hi:
+                out.append(aln["seq"][qi : qi + ln])
+            qi += ln
+        elif op == 4:
+            qi += ln
+    if first is None or first > v.pos or last < v.pos + len(v.ref) - 1:
+        return None
+    query = "".join(out)
+    lo2, hi2 = first, last + 1
+    w = [seq[lo2 : v.pos] + al + seq[v.pos + len(v.ref) : hi2] for al in (v.ref, v.alts[0])]
+    d = [_lev(query, x) for x in w]
+    if d[1 - carried] < d[carried]:
+        return f"edit distance of the exactly extracted window to the padded alleles REF/ALT: {d[0]}/{d[1]}"
+    return None
+
+
+def _v(clause, mode, site, nm, e, detail, sub=""):
     if "N-" in e.get("style", ""):
         sub = ":nskip"
     return {
